@@ -57,6 +57,45 @@ func writeList(ws []effWrite, P *Prog) string {
 	return strings.Join(l, "; ")
 }
 
+// checkSignWrites (R18.2, second half; shared with C01 and C02: what Sign
+// leaves behind is what Verify and the encoder read): a structure's Sign
+// writes only the signature and the protected map of its own receiver - in
+// particular not the retained raw header bytes the ToBeSigned was built from.
+func checkSignWrites(r *Report, rule string) {
+	P := r.P
+	nss := 0
+	for _, fn := range P.signEntryPoints() {
+		nss++
+		s := P.effects.summary(fn)
+		var bad []effWrite
+		for _, w := range s.writes {
+			okw := false
+			if fn.Signature.Recv() != nil && w.kind == "param" && w.param == 0 {
+				p := strings.Join(w.path, "/")
+				switch {
+				case p == "Signature", p == "Headers/Protected", strings.HasPrefix(p, "Headers/Protected/[*]"):
+					okw = true
+				case strings.HasPrefix(p, "Signatures/[*]/Signature"), strings.HasPrefix(p, "Signatures/[*]/Headers/Protected"):
+					okw = true // COSE_Sign: the per-signer slots
+				}
+			}
+			// sign-and-encode helpers build the message from a Headers
+			// parameter passed by value: its protected map IS the message's
+			// protected header (the algorithm injection lands there)
+			if fn.Signature.Recv() == nil && w.kind == "param" && w.param < len(fn.Params) && isNamed(fn.Params[w.param].Type(), cosePath, "Headers") {
+				if p := strings.Join(w.path, "/"); p == "Protected" || strings.HasPrefix(p, "Protected/[*]") {
+					okw = true
+				}
+			}
+			if !okw {
+				bad = append(bad, w)
+			}
+		}
+		r.ob(rule, shortFn(fn)+":writes", fn, nil, "Sign writes only its own receiver's Signature / protected header").check(len(bad) == 0, fmt.Sprintf("%d writes, all under the receiver's signing slots", len(s.writes)), "writes "+writeList(bad, P))
+	}
+	r.floor(rule, nss, 8, "sign entry points")
+}
+
 func runC18(r *Report, tier string) {
 	P := r.P
 	r.rule("R18.1", "for every read entry point (Verify x7, MarshalCBOR x8, MarshalProtected/Unprotected, Key conversion and accessor methods, protected-header accessors, built-in Verify/VerifyDigest/Algorithm) the interprocedural write set restricted to memory that existed before the call (receiver, parameters, globals, memory of unknown origin) is empty; append/copy/delete on a non-fresh slice or map count as writes; calls that cannot be summarised (dynamic calls, external callees without a contract receiving non-fresh references) count as writes.")
@@ -89,37 +128,7 @@ func runC18(r *Report, tier string) {
 		s := P.effects.summary(fn)
 		r.ob("R18.2", shortFn(fn)+":stateless", fn, nil, "built-in signer writes nothing that existed before the call").check(len(s.writes) == 0, "empty write set", "writes "+writeList(s.writes, P))
 	}
-	nss := 0
-	for _, fn := range P.signEntryPoints() {
-		nss++
-		s := P.effects.summary(fn)
-		var bad []effWrite
-		for _, w := range s.writes {
-			okw := false
-			if fn.Signature.Recv() != nil && w.kind == "param" && w.param == 0 {
-				p := strings.Join(w.path, "/")
-				switch {
-				case p == "Signature", p == "Headers/Protected", strings.HasPrefix(p, "Headers/Protected/[*]"):
-					okw = true
-				case strings.HasPrefix(p, "Signatures/[*]/Signature"), strings.HasPrefix(p, "Signatures/[*]/Headers/Protected"):
-					okw = true // COSE_Sign: the per-signer slots
-				}
-			}
-			// sign-and-encode helpers build the message from a Headers
-			// parameter passed by value: its protected map IS the message's
-			// protected header (the algorithm injection lands there)
-			if fn.Signature.Recv() == nil && w.kind == "param" && w.param < len(fn.Params) && isNamed(fn.Params[w.param].Type(), cosePath, "Headers") {
-				if p := strings.Join(w.path, "/"); p == "Protected" || strings.HasPrefix(p, "Protected/[*]") {
-					okw = true
-				}
-			}
-			if !okw {
-				bad = append(bad, w)
-			}
-		}
-		r.ob("R18.2", shortFn(fn)+":writes", fn, nil, "Sign writes only its own receiver's Signature / protected header").check(len(bad) == 0, fmt.Sprintf("%d writes, all under the receiver's signing slots", len(s.writes)), "writes "+writeList(bad, P))
-	}
-	r.floor("R18.2", nss, 8, "sign entry points")
+	checkSignWrites(r, "R18.2")
 
 	// R18.3
 	ng := 0
